@@ -20,7 +20,17 @@ from fractions import Fraction as F
 
 from . import oracle as O
 
-SUP = {2: '²', 3: '³', 4: '⁴', 5: '⁵', 6: '⁶', 7: '⁷', 8: '⁸', 9: '⁹'}
+class _Sup(dict):
+    """exponent -> superscript spelling (no spelling for 1)"""
+    DIGITS = '⁰¹²³⁴⁵⁶⁷⁸⁹'
+
+    def get(self, e, default=''):
+        if e < 2:
+            return default
+        return ''.join(self.DIGITS[int(d)] for d in str(e))
+
+
+SUP = _Sup()
 
 
 class SetupRejected(Exception):
